@@ -7,6 +7,9 @@ from __future__ import annotations
 import z3
 
 
+MODEL_CLASSES = {}
+
+
 def field_info(model_cls, field):
     f = model_cls.__fields__[field]
     subs = f.sub_fields or [f]
@@ -36,6 +39,7 @@ def member_kind(t, sf=None):
     if isinstance(t, type) and issubclass(t, pydantic.ConstrainedInt):
         return "cint"
     if isinstance(t, type) and issubclass(t, pydantic.BaseModel):
+        MODEL_CLASSES[t.__name__] = t
         return "model:" + t.__name__
     if t is type(None):
         return "none"
@@ -107,6 +111,12 @@ def coerce_kind(members, smart, kind):
             if kind == "list":
                 out.append((m, "coerced", m, None))
                 return out
+        elif m.startswith("model:"):
+            # pydantic v1 validates a BaseModel member with Model.validate: a dict, an instance, or ANYTHING dict() accepts
+            # (a sequence of pairs, a sequence of two-character strings) whose keys satisfy the model's fields
+            if kind == "list":
+                out.append((m, "coerced-if-dictable", m, None))
+            continue
         else:
             continue
     return out
@@ -133,5 +143,12 @@ def concrete_model(members, smart, v):
             try:
                 return float(v) if res == "float" else int(v)
             except ValueError:
+                continue
+        if how == "coerced-if-dictable":
+            cls = MODEL_CLASSES.get(m.split(":", 1)[1])
+            try:
+                d = dict(v)
+                return cls(**d)          # member validation is the class's own business; the ORDER is what is modelled
+            except Exception:
                 continue
     return ("REJECT",)
